@@ -1152,6 +1152,10 @@ func (check typecheck) convertUntyped(n *node, typ *itype) error {
 		if n.typ.isNil() {
 			return convErr
 		}
+		if isBoolean(ntyp) != isBoolean(ttyp) {
+			// A boolean constant is converted only to a boolean type (its value is not checked by representable).
+			return convErr
+		}
 		ityp = typ
 		rtyp = ttyp
 	case isInterface(typ):
